@@ -20,8 +20,13 @@ RULE = ('case = (transport, close path, number of requests in flight 0..3, peer 
         'rejected subsystem, TLS handshake never answered / untrusted CA), and open/close cycles counting threads and '
         'descriptors; SSH only (ssh_buffered): k = 0..3 (thorough: up to 6) chunks of BUF_SIZE octets sit in paramiko\'s channel '
         'buffer when close() closes the transport, the worker being caught inside a listener callback / between select and '
-        'recv / in select - loop iterations after the close are counted against 1 + k. quick = Unix socketpair + 12 SSH '
-        'cases (the 8 ssh_buffered ones included); thorough adds TLS over loopback TCP and SSH over a socketpair. distinct = '
+        'recv / in select - loop iterations after the close are counted against 1 + k. Every transport (blocked_read): the '
+        'worker is ASLEEP INSIDE _transport_read when the session is closed by close() / close() twice / close_session() / with-exit '
+        '(with, without exception), 0..3 requests in flight - TLS: the peer (driven through ssl.MemoryBIO) put a truncated '
+        'record on the wire (all but the last 40 octets / half / 3 octets of the header / 1 octet; record of 100..15000 octets) and stays '
+        'silent; Unix, SSH: spurious readiness (the octets that made the handle readable are taken away between select and recv). '
+        'quick = Unix socketpair + 14 SSH cases (the 8 ssh_buffered ones included) + 10 TLS cases (4 blocked_read, 1 failed hello with the worker asleep in recv behind the session tickets); thorough adds '
+        'TLS over loopback TCP and SSH over a socketpair in full. distinct = '
         'distinct case tuples; non-trivial = a handle was opened (all but the pre-handle connect failures).')
 ASSUMES = ['O1 (TLS/Unix): a read begun after the local close of the socket returns no data (EOF or error) - validated by every trace',
            'O4 (SSH): a chunk enters the channel buffer only while the transport is open: after Transport.close() returned / is_active() '
@@ -29,11 +34,18 @@ ASSUMES = ['O1 (TLS/Unix): a read begun after the local close of the socket retu
            'O5 (SSH): channel.recv(BUF_SIZE) hands out the buffer oldest first, one chunk per call, and returns b\'\' only when it is empty - validated by every SSH trace',
            'O2: closing the socket / paramiko transport (or an inactive transport) closes the connection towards the peer - observed as EOF at the peer within 2 s in every case',
            'O3: Thread.join/is_alive report "not alive" only after run() ended',
+           'O6: a read sleeping inside the transport is woken by the local shutdown/close of the handle and returns without data; with the '
+           'handle open it returns only when the peer sends / the socket time-out expires - validated by every blocked_read trace (the model '
+           'accepts Read after Block only behind the CloseHandle label or an Unblock) and by the bound on close() (<= 2 s) measured there',
            'listener callbacks return (a callback that blocks forever blocks the worker and so close())']
 TRUSTED = ['modelled, not verified: kernel socket/epoll semantics, OpenSSL shutdown, paramiko transport/channel teardown, threading.Thread',
-           'oracle hypotheses O1-O5 are built into Model/Close.v step (no Axiom/Parameter): O4 = Arrive is enabled only while socket_open, '
+           'oracle hypotheses O1-O6 are built into Model/Close.v step (no Axiom/Parameter): O4 = Arrive is enabled only while socket_open, '
            'O5 = Read (RData n) pops the head of chan and Read REof needs chan = [] on SSH; C12_ssh_bound, C12_ssh_bound_from_closing, '
-           'C12_ssh_worker_terminates and C12_ssh_close_returns hold under them',
+           'C12_ssh_worker_terminates and C12_ssh_close_returns hold under them; O6 = in WBlocked no worker label is enabled while socket_open, '
+           'Read REof/RErr (never RData) once it is closed, Block/Unblock only while it is open; C12_close_returns, C12_close_wakes_blocked_read, '
+           'C12_worker_progress_closed hold under it',
+           'blocked_read: "asleep" = the last entry the worker logged is ReadBegin and it is >= 0.2 s old when the close path is entered '
+           '(evidence histogram blocked_read_worker_asleep_at_close); a read counts as having slept when it took >= 0.15 s',
            'SSH chunk accounting of the harness: len(paramiko Channel.in_buffer) read under the log lock right after Transport.close() returned',
            'harness logging discipline (flag writes/reads logged under one lock; blocking calls as Begin/result pairs)']
 ALLOWED_AXIOMS = []
@@ -54,6 +66,10 @@ def SB():
     from harness import c12_sshbuf
     return c12_sshbuf
 
+def BL():
+    from harness import c12_blocked
+    return c12_blocked
+
 def rundir():
     from vlib import paths
     os.makedirs(paths.RUN, exist_ok=True)
@@ -62,10 +78,16 @@ def rundir():
 # =====================================================================================
 # log -> model labels
 # =====================================================================================
-def to_labels(kind, plog, connect_failed=None):
+def to_labels(kind, plog, connect_failed=None, ptimes=None):
     """plog: list of (lab, arg, is_worker). Returns list of encoded labels for Glue/C12_glue.v.
-    connect_failed: None | 'pre' (nothing opened) | 'cleanup' (tls/unix connect closed its own socket) | 'late'"""
+    connect_failed: None | 'pre' (nothing opened) | 'cleanup' (tls/unix connect closed its own socket) | 'late'
+    ptimes: the time of every log entry; a read that took >= 0.15 s (or never returned) SLEPT inside the transport:
+    label Block after its ReadBegin, Unblock before its result when the handle was still open then (Model/Close.v O6)"""
     out = []
+    slept = set(BL().slept_reads(plog, ptimes)) if ptimes is not None else set()
+    handle_closed = [False]            # a CloseHandle / inactive transport has been emitted
+    shut_done = {0: False, 1: False}   # this actor's close() already performed its CloseHandle at the shutdown
+    asleep = [False]
     prog = {0: None, 1: None}          # remaining close program per actor (None: not inside close)
     connected_once = False
     hello_skipped = False
@@ -133,17 +155,23 @@ def to_labels(kind, plog, connect_failed=None):
             else:
                 if last_w[0] is not None and last_w[0][0] == 22: emit([23], True)     # after the error broadcast
                 # else: close() from inside a callback, already emitted as CbClose at the Dispatch entry
-            prog[a] = list(PROG[kind])
+            prog[a] = list(PROG[kind]); shut_done[a] = False
         elif lab == 'SetClosing': cstep(a, 'SetClosing')
+        elif lab == 'SockShutdown':
+            # TLS/Unix close(): shutdown(SHUT_RDWR) + close() are ONE CloseHandle statement of the model; the handle is
+            # closed towards the worker and the peer from the (successful) shutdown on
+            if prog[a] is not None and 'CloseHandle' in prog[a]:
+                cstep(a, 'CloseHandle'); shut_done[a] = True; handle_closed[0] = True
         elif lab in ('SockClose', 'TransportClose'):
-            if prog[a] is not None: cstep(a, 'CloseHandle')
+            if lab == 'SockClose' and shut_done[a]: shut_done[a] = False
+            elif prog[a] is not None: cstep(a, 'CloseHandle'); handle_closed[0] = True
             if lab == 'TransportClose' and arg is not None: out.append([SB().MARK, arg])     # octets buffered in the channel
         elif lab == 'TransportInactive':
             # ssh close(): `if self._transport.is_active()` was false - the guarded statement is skipped here
             if prog[a] and 'CloseHandle' in prog[a]:
                 while prog[a][0] != 'CloseHandle':
                     c = prog[a].pop(0); emit([8, a, CSTEP[c], 0 if c == 'JoinW' else 1], a == 1)
-                prog[a].pop(0); emit([8, a, CSTEP['CloseHandle'], 0], a == 1)
+                prog[a].pop(0); emit([8, a, CSTEP['CloseHandle'], 0], a == 1); handle_closed[0] = True
                 out.append([SB().MARK, arg])
         elif lab == 'DropChannelClose':
             if prog[a] is not None: cstep(a, 'ChanDrop')
@@ -156,8 +184,14 @@ def to_labels(kind, plog, connect_failed=None):
             emit([99])                             # no such label: the model rejects
         elif lab == 'SelectBegin': emit([14], True)
         elif lab == 'Select': emit([15, arg], True)
-        elif lab == 'ReadBegin': emit([16], True)
+        elif lab == 'ReadBegin':
+            emit([16], True)
+            if i in slept and not handle_closed[0]:
+                out.append([26]); asleep[0] = True                       # Block: environment label
         elif lab == 'Read':
+            if asleep[0]:
+                if not handle_closed[0]: out.append([27])                # Unblock: the peer / a time-out, handle still open
+                asleep[0] = False
             if arg == 1:
                 k = 0
                 for (l2, a2, w2) in plog[i + 1:]:
@@ -367,6 +401,8 @@ def scenario(case, files):
         r.s._plog_add('CsRet')
     elif path == 'ssh_buffered':
         SB().scenario_buffered(case, r, opn, submit, p)
+    elif path == 'blocked_read':
+        BL().scenario_blocked(case, r, opn, submit, files)
     elif path == 'failed_hello':
         r.s, r.peer, err = manager_connect(kind, files, r, hello=case['hello'])
         r.raised = type(err).__name__ if err else None
@@ -466,7 +502,9 @@ def observe(case, r):
     if srv is not None and hasattr(srv, 'raw_eof_at') and case.get('fault') in ('nohandshake', 'badca'):
         srv.t.join(max(0.0, t_end - p.now()) + 0.2)
         o['raw_eof'] = srv.raw_eof_at is not None
-    time.sleep(0.05)                                                  # let a late callback show up
+    # let a late callback show up: listeners are invoked by the session thread only, so once that thread has ended a
+    # short pause is enough (round 4: the 0.05 s pause of every case cost 5 s of the quick tier)
+    time.sleep(0.05 if (s is not None and s.is_alive()) else 0.01)
     if s is not None:
         o['connected'] = bool(s.connected)
         from ncclient.transport.errors import TransportError
@@ -533,7 +571,8 @@ def correspond(case, r, o, model):
         msg_rid = {}
     else:
         with s._plock: plog = list(s._plog)
-        labels, msg_rid = to_labels(case['transport'], plog, r.connect_failed if not any(l[0] == 'CloseCall' for l in plog) else None)
+        with s._plock: ptimes = list(s._ptimes)[:len(plog)]
+        labels, msg_rid = to_labels(case['transport'], plog, r.connect_failed if not any(l[0] == 'CloseCall' for l in plog) else None, ptimes)
     if model is None: return labels, None, None, []
     mo = model_obs(model.call([1, TR[case['transport']], labels]), len(labels))
     diffs = []
@@ -603,6 +642,7 @@ def run_case(case, files, model):
         bad = oracle(case, r, o)
         labels, mo, im, diffs = correspond(case, r, o, model)
         o2 = dict(o); o2['raised'] = r.raised
+        if 'asleep' in r.extra: o2['asleep'] = r.extra['asleep']
         return dict(obs=o2, bad=bad, labels=labels, model=mo, impl=im, diffs=diffs)
     finally:
         cleanup(r)
@@ -648,6 +688,7 @@ def gen_cases(kind, rng, thorough):
             for _ in range(8):
                 cs.append(dict(transport=kind, path='ssh_buffered', mode=rng.choice(['callback', 'gate']), k=rng.randint(1, 6),
                                pending=rng.randint(0, 2), msg=rng.choice([300, 700, 1000, 1500, 4096, 5000])))
+    if thorough: cs.extend(BL().thorough_cases(kind, rng))      # the worker asleep inside a read when the session is closed
     # extra random races
     for _ in range(6 if not thorough else 20):
         cs.append(dict(transport=kind, path='race_reply', pending=rng.randint(1, 3), delay=rng.choice([0, 0.0005, 0.002, 0.005])))
@@ -712,6 +753,14 @@ def _ssh_iter_evidence(ctx, case, res):
             chunks=it['buffered_chunks'], iterations_after_close=it['selects_after_close'], bound=it['bound'],
             model_bound=mi.get('model_bound'), model_sel_after_close=mi.get('model_sel_after_close')))
 
+def _blocked_evidence(ctx, case, res):
+    """blocked_read: was the worker really asleep inside the read when the close path was entered; how long close() took"""
+    if case.get('path') != 'blocked_read': return
+    o = res.get('obs') or {}
+    ctx.hist('blocked_read_worker_asleep_at_close', '%s/%s' % (case['transport'], o.get('asleep')))
+    if o.get('close_max_s') is not None: ctx.hist('blocked_read_close_duration_s', '%.1f' % o['close_max_s'])
+    ctx.hist('blocked_read_block_labels_in_trace', sum(1 for l in res.get('labels') or [] if l[0] == 26))
+
 def run(ctx):
     thorough = ctx.tier == 'thorough'
     kinds = ['unix'] + (['tls', 'ssh'] if thorough else [])
@@ -734,6 +783,7 @@ def run(ctx):
             ctx.hist('labels_per_trace', min(200, 10 * (len(res['labels']) // 10)))
             if res['obs'].get('exit_delay') is not None: ctx.hist('worker_exit_delay_s', '%.1f' % res['obs']['exit_delay'])
             if kind == 'ssh': _ssh_iter_evidence(ctx, case, res)
+            _blocked_evidence(ctx, case, res)
             if ctx.evaluations % 17 == 1:
                 ctx.sample({'case': case, 'obs': {k: v for k, v in res['obs'].items() if k != 'reqs'}, 'n_labels': len(res['labels'])})
         if ctx.failures or len(ctx.disagreements) >= 3:
@@ -757,18 +807,22 @@ def run(ctx):
                      dict(transport='tls', path='failed_hello', hello='badbody'), dict(transport='tls', path='failed_hello', hello='nocaptext'),
                      dict(transport='tls', path='failed_hello', hello='eof'), dict(transport='tls', path='failed_connect', fault='badca'),
                      dict(transport='tls', path='close', pending=1),
-                     ] + SB().quick_cases(ctx.rng):
+                     # failed hello with the worker asleep in recv (select reported the TLS 1.3 session tickets: records without
+                     # application data) when the manager's clean-up closes the session
+                     dict(transport='tls', path='failed_hello', hello='silent'),
+                     ] + SB().quick_cases(ctx.rng) + BL().quick_cases(ctx.rng):
             if ctx.failures or len(ctx.disagreements) >= 3: break
             res = check_case(ctx, case, files, ctx.model)
             ctx.count(case); ctx.hist('transport', case['transport']); ctx.hist('path', case['path'])
             ctx.traces += 1 if res['model'] is not None and res['model'].get('accepted') else 0
             if case['transport'] == 'ssh': _ssh_iter_evidence(ctx, case, res)
+            _blocked_evidence(ctx, case, res)
     ctx.exhaustive = False
 
 def search(ctx, seeds):
     kinds = ['unix'] + (['tls', 'ssh'] if ctx.tier == 'thorough' else [])
-    files = _files(kinds)
-    tries = list(seeds)
+    files = _files(kinds + ['tls'])
+    tries = list(seeds) + BL().quick_cases(ctx.rng)
     for k in kinds: tries += gen_cases(k, ctx.rng, False)
     for case in tries:
         try:
